@@ -132,6 +132,27 @@ func genPool(rng *rand.Rand) Pool {
 	if p.Ammo < 0 {
 		p.Ammo = 0
 	}
+	if rng.Intn(8) == 1 {
+		// a shared profile riddled with empty parts (pauses of 0 rps, once 0): many boundaries at
+		// which several instances find a part drained and the next one empty at the same time
+		p.Ramp, p.StartupConst, p.PreStartMs, p.PerInstance = false, false, 0, false
+		p.Instances = 4 + rng.Intn(9)
+		p.RPS = SchedSpec{Kind: "composite"}
+		for k, n := 0, 40+rng.Intn(80); k < n; k++ {
+			p.RPS.Parts = append(p.RPS.Parts, SchedSpec{Kind: "once", N: int64(1 + rng.Intn(12))})
+			if rng.Intn(2) == 0 {
+				p.RPS.Parts = append(p.RPS.Parts, SchedSpec{Kind: "const", A: 0, DurMs: 1})
+			}
+			if rng.Intn(2) == 0 {
+				p.RPS.Parts = append(p.RPS.Parts, SchedSpec{Kind: "once", N: 0})
+			}
+		}
+		p.RPS.Parts = append(p.RPS.Parts, SchedSpec{Kind: "once", N: 20})
+		T := p.RPS.Build().Left()
+		p.AmmoClass = []string{"T-1", "T+N", "10T"}[rng.Intn(3)]
+		p.Ammo = map[string]int{"T-1": T - 1, "T+N": T + p.Instances, "10T": 10 * T}[p.AmmoClass]
+		p.Procs = 16
+	}
 	if rng.Intn(8) == 0 {
 		// ammo runs out under a paced profile while instances are still being started
 		p.Ramp, p.StartupConst, p.PreStartMs = true, false, 0
